@@ -49,6 +49,25 @@ def run(ctx: Ctx) -> None:
         ctx.file_used(REPO / f)
     for a in ASSUMPTIONS:
         ctx.assume(a)
+    # The sweep keeps operand values symbolic, which is sound only while the *text* does not depend on them.  A render() that compares
+    # an operand's value with a number (print `(PX)` for `(PX+00)` ..) names another location for that one value while the IL is
+    # unchanged; it is reported from the syntax, and the sweep (which would have to enumerate that byte for every encoding) is skipped.
+    import ast as _ast
+    n_r = 0
+    for rel in (isa.OPCODES_PY, isa.INSTR_PY):
+        for cls_ in [c for c in _ast.walk(py.module(rel).tree) if isinstance(c, _ast.ClassDef)]:
+            for f_ in [f for f in cls_.body if isinstance(f, _ast.FunctionDef) and f.name == "render"]:
+                n_r += 1
+                for cmp_ in [x for x in _ast.walk(f_) if isinstance(x, _ast.Compare)]:
+                    sides = [cmp_.left] + list(cmp_.comparators)
+                    num = any(isinstance(x, _ast.Constant) and isinstance(x.value, int) and not isinstance(x.value, bool) for x in sides)
+                    val = [x for x in sides if (isinstance(x, _ast.Attribute) and x.attr in ("value", "n_val")) or (isinstance(x, _ast.Call) and isinstance(x.func, _ast.Attribute) and x.func.attr in ("offset_value",))]
+                    if num and val:
+                        ctx.violation("C03.8/text-value-independent", key_of(rel, f"{cls_.name}.render", "text depends on an operand value"),
+                                      f"{cls_.name}.render compares `{_ast.unparse(val[0])}` with a number (`{_ast.unparse(cmp_)[:60]}`): for that operand value the text names another location than for all others, while the lifted IL does not change", f"{rel}:{cmp_.lineno}")
+    ctx.instance("C03.8/text-value-independent", "render() methods of the ISA layer: no comparison of an operand value with a number", n_r, 15)
+    if any(f.rule == "C03.8/text-value-independent" for f in ctx.findings):
+        return
     mode = "all" if ctx.tier == "thorough" else "reps"
     base, pre, _u = sweep(stages=("render", "lift"), with_prefixes=mode)
     rows = isa.py_rows(py)
